@@ -22,7 +22,7 @@ ASSUMPTIONS = ["users place no electric poles and no combinators (those kinds ar
 
 
 def budget(tier):
-    return {"examples": 1200 if tier == "quick" else 8000, "wall_s": 130 if tier == "quick" else 1700}
+    return {"examples": 1200 if tier == "quick" else 8000, "wall_s": 130 if tier == "quick" else 900}
 
 
 PROTOS = [("small-lamp", 1), ("inserter", 1), ("transport-belt", 1), ("steel-chest", 1), ("train-stop", 2),
